@@ -1,5 +1,6 @@
 import TcheranVerif.Model.UciMove
 import TcheranVerif.Model.Movegen
+import TcheranVerif.Proofs.PositionCmd
 /-!
 # C17 — the position command: move text, and unique matching of a text against the legal moves
 
@@ -10,8 +11,14 @@ import TcheranVerif.Model.Movegen
 * `expect_matching_unique` — on a duplicate-free move list in which (source, destination,
   promotion) determines the move (true of the legal moves of a position: C01), the first match of
   `expect_matching` is the only match, so the move played is the move meant.
-"The position after the command equals the rules' position" is decided on the real binary
-(`d fen`, `d perftdiv 1`) against the Rules replay and the engine-model replay: partial.
+* **`key_determines_move`** — in every position, among the legal moves of the rules (source, destination,
+  promotion) determines the move, label included: the hypothesis of `expect_matching_unique` always holds.
+* **`position_replays`** — for every legal start (views in agreement, `GInv`) and every game of legal moves
+  given as move texts, the model of the `position` command (`generate_legal_moves`, `expect_matching`,
+  `make_move`, move by move) answers with exactly the position the rules reach, and the invariant still
+  holds there. One side condition is explicit: the 218-slot move list is not exceeded along the game.
+The tie of this model to the binary is the UCI phase (`d fen`, `d perftdiv 1` after single commands and after
+growing move lists of one game in one process, with and without `ucinewgame`).
 -/
 namespace Tcheran.Props.C17
 open Tcheran Tcheran.UciMove
@@ -60,6 +67,21 @@ theorem expect_matching_unique (legal : List Move) (t : Text) (m : Move)
     have : keyOf x = t := by simpa using hx
     rw [hinj x hxm m hm (this.trans hk.symm)]
 
+
+open Rules in
+/-- **key_determines_move** -/
+theorem key_determines_move (pos : Rules.Pos) (a b : Move) (ha : a ∈ legalMoves pos) (hb : b ∈ legalMoves pos)
+    (hk : UciMove.keyOf a = UciMove.keyOf b) : a = b := legal_key_inj pos a b ha hb hk
+
+open Rules Game in
+/-- **position_replays** -/
+theorem position_replays (T : SliderTables) (ms : List Move) (g : Game) (pos' : Rules.Pos) (h : Search.SInv g)
+    (hp : LegalPath (ofGame g) ms pos')
+    (hfit : ∀ k gk, makeMoves theCfg g (ms.take k) = some gk → (generateLegal gk).isSome = true) :
+    ∃ g', UciMove.positionCmd g (ms.map UciMove.keyOf) = some g' ∧ ofGame g' = pos' ∧ Search.SInv g' := by
+  obtain ⟨g', h1, _, h3, h4⟩ := Tcheran.position_replays T ms g pos' h hp hfit
+  exact ⟨g', h1, h3, h4⟩
+
 /-- castling is written as the king's move: the text of a castling move is `e1g1`-style, not `O-O` -/
 example : text (keyOf (Move.castles E1 G1)) = "e1g1".toList := by decide
 example : text (keyOf (Move.capturePromotion ⟨52, by decide⟩ ⟨61, by decide⟩ .knight)) = "e7f8n".toList := by decide
@@ -68,3 +90,5 @@ end Tcheran.Props.C17
 #print axioms Tcheran.Props.C17.move_text_roundtrip
 #print axioms Tcheran.Props.C17.notation_injective
 #print axioms Tcheran.Props.C17.expect_matching_unique
+#print axioms Tcheran.Props.C17.key_determines_move
+#print axioms Tcheran.Props.C17.position_replays
